@@ -5,8 +5,8 @@ CONSTANTS
   FlagHeights <- FH2
   Active <- AllTx
   Lists <- ListsAll
-  Acts <- AllActs
-  MaxSteps = 12
+  Acts <- NoTest
+  MaxSteps = 10
   KeyMode = "full"
 INIT Init
 NEXT Next
